@@ -540,11 +540,9 @@ fn convert_array8_to_type(src: &Array8, lg_config_k: u8, target_type: HllType) -
                 }
             }
 
-            let src_est = src.estimate();
-            let arr6_est = array6.estimate();
-            if src_est > arr6_est {
-                array6.set_hip_accum(src_est);
-            }
+            // Same registers, same estimator state (HIP accumulator, kxq, out-of-order flag):
+            // the result must not depend on the requested target type.
+            array6.copy_estimator_from(src.estimator());
 
             HllSketch::from_mode(lg_config_k, Mode::Array6(array6))
         }
@@ -558,11 +556,9 @@ fn convert_array8_to_type(src: &Array8, lg_config_k: u8, target_type: HllType) -
                 }
             }
 
-            let src_est = src.estimate();
-            let arr4_est = array4.estimate();
-            if src_est > arr4_est {
-                array4.set_hip_accum(src_est);
-            }
+            // Same registers, same estimator state (HIP accumulator, kxq, out-of-order flag):
+            // the result must not depend on the requested target type.
+            array4.copy_estimator_from(src.estimator());
 
             HllSketch::from_mode(lg_config_k, Mode::Array4(array4))
         }
